@@ -500,7 +500,7 @@ func bootstrapTable(c *core.Ctx, s *bootstrapSubject, maxLen int) (rs rows, runs
 						args = append(args, factory)
 					default:
 						if _, isSl := p.Type().Underlying().(*types.Slice); isSl {
-							args = append(args, &absint.List{Elems: []absint.Value{absint.NewTok("F1", "factory-processor")}})
+							args = append(args, &absint.List{Elems: []absint.Value{absint.NewTok("F1", "factory-processor"), absint.NewTok("F2", "factory-processor")}}) // two: a failure of the first must not be forgotten over the second
 						} else {
 							args = append(args, absint.NewTok("arg:"+p.Name(), "arg"))
 						}
